@@ -110,6 +110,19 @@ CLAIMED["C04"] = ("proof",
     "Trusted: as C03. MTProto 1.0 does not authenticate padding: a flip that only garbles plaintext padding is accepted with the identical message (counted in the evidence).",
     "machine-checked proof in Coq + fault-enumeration correspondence")
 
+CLAIMED["C14"] = ("proof",
+    "Gallina models of the tlparser cursor/line parser (with Go's UTF-8 decoding and explicit bounds panics) and of tlgen's classification/emission as descriptors; theorems: "
+    "parse (print s) = Ok s for every schema of the documented subset (wf_schema), the parser never panics on any byte string, the emitted layout is exactly the schema's "
+    "(both directions: every constructor/function with its id, fields in order with kind, vector marker, flag bit, FlagIndex at the flags word; nothing else), the output is "
+    "independent of map iteration order, the generator is total on well-formed input; the shipped api_121.tl is accepted (vm_compute on the text embedded each run). Tied to the "
+    "code by running ParseSchema and the extracted parser on shipped, random and malformed schemas, and by compiling the real tlgen output per schema, reflecting the compiled "
+    "package and comparing with the model's descriptors; generation is run twice and byte-compared.",
+    "DESIGN.md section 8 (C14)",
+    "Trusted: Coq kernel; extraction; harness incl. the reflection program template. strcase name mangling (goify) and sort.Slice/sort.Strings are Section variables "
+    "(oracle table / sorted-permutation hypothesis). Partial: termination of the parser on ARBITRARY input is not proved (only on printed schemas and the shipped text); "
+    "'the generated package compiles' is established by compiling, per schema.",
+    "machine-checked proof in Coq + parser/generator correspondence incl. compile-and-reflect")
+
 PENDING_REASON = "check not built yet in this round (machinery under construction; see DESIGN.md section 9 order of work)"
 
 
@@ -154,7 +167,7 @@ def main():
         json.dump(m, f, indent=1)
 
 
-HOOK_COMMITS = ["8cc65cc", "33a3c78", "794403c", "a317da0", "f05915b"]
+HOOK_COMMITS = ["8cc65cc", "33a3c78", "794403c", "a317da0", "f05915b", "501c1c7"]
 
 if __name__ == "__main__":
     main()
